@@ -719,6 +719,25 @@ func monC14(c *Case, tr *Trace) []Violation {
 					idle = false // a tunnel (outer or nested) already ended: the baseline does not apply
 				}
 			}
+			if strings.HasPrefix(c.Cfg.Dir, "nested") {
+				// RPCs that run inside a nested tunnel are opaque payload on the outer wire: there is no wire evidence for
+				// them. They are over when their callers have been given the terminal result (a step before the snapshot).
+				for i := range c.RPCs {
+					started, told := false, false
+					for _, o := range tr.Ops {
+						if o.RPC != i || o.Side != "caller" || o.Start > sn.Step {
+							continue
+						}
+						started = true
+						if !o.Pending() && o.End < sn.Step && ((o.Kind == "recv" && o.Code != CodeNil) || o.Kind == "invoke" || (o.Kind == "start" && o.Code != CodeNil)) {
+							told = true
+						}
+					}
+					if started && !told {
+						idle = false
+					}
+				}
+			}
 			for k, e := range evs {
 				if k.id == -1 || e.nsEmit < 0 || e.nsEmit > sn.Step {
 					continue // (a stream opened after this snapshot - the probe RPC, say - says nothing about it)
